@@ -31,6 +31,7 @@ MC_POLICY_SIM = dict(coverage=False, name="MC_Policy_sim", module="MC_Wal.tla", 
                      simulate=(6000, 900), workers=12, expect_actions=WAL_STEPS + ["CrashProcess", "CrashPower"], timeout=3000)
 MC_DAMAGE = dict(coverage=False, name="MC_Damage", module="MC_Wal.tla", cfg="MC_Damage_quick.cfg", cfg_thorough="MC_Damage.cfg",
                  expect_actions=WAL_STEPS + ["Restart", "Damage"], timeout=7000)
+MC_NOOP = dict(coverage=False, name="MC_Noop", module="MC_Wal.tla", cfg="MC_Noop_quick.cfg", expect_actions=WAL_STEPS + ["Restart"], timeout=3000)
 MC_READER = dict(name="MC_Reader", module="Reader.tla", cfg="MC_Reader.cfg", expect_actions=["ReadFrame", "Header", "IntoWriter"])
 MC_FRAMES = dict(name="MC_Frames", module="MC_Frames.tla", cfg="MC_Frames_quick.cfg", cfg_thorough="MC_Frames_tiny.cfg")
 MC_FRAMES_REAL = dict(name="MC_Frames_real", module="MC_Frames.tla", cfg="MC_Frames_real.cfg")
@@ -70,9 +71,9 @@ RECIPES = {
     "C13": dict(
         level="model_checking",
         monitors={"C13"},
-        mc=[MC_QM],
-        runs=[dict(cmd="run", gen="rejects:120,small:40,positions:40", policy="always_flush"),
-              dict(cmd="run", gen="rejects:30", policy="do_nothing,always_fsync")],
+        mc=[MC_QM, MC_NOOP],
+        runs=[dict(cmd="run", gen="rejects:120,small:40,positions:40,aim-noop:60", policy="always_flush"),
+              dict(cmd="run", gen="rejects:30,aim-noop:10", policy="do_nothing,always_fsync")],
         rule="every rejected / no-op call: no write/create/set_len/unlink event, wal_bytes_written = 0, state, cursor "
              "and file list unchanged; restart-equality through the C01/C05 monitors of the same run; "
              "non-trivial = rejected or no-op calls",
